@@ -3,7 +3,7 @@ SPECIFICATION Spec
 CONSTANTS
   MaxLen = 11
   Fuel = 80
-  Prods = {"app", "let", "data", "pair"}
+  Prods = {"app", "let", "vlet", "data", "pair"}
   Faults = {}
   Root = "retint"
   BindTys = {"int", "B", "tri", "pii"}
